@@ -149,6 +149,26 @@ func (op *Operator) String() string {
 	return ""
 }
 
+// noCaseVariant returns the case-insensitive counterpart of an operator.
+func (op Operator) noCaseVariant() Operator {
+	switch op {
+	case Equal:
+		return EqualNocase
+	case Unequal:
+		return UnequalNocase
+	case RegexMatch:
+		return RegexNoCaseMatch
+	case RegexMatchNot:
+		return RegexNoCaseMatchNot
+	case Contains:
+		return ContainsNoCase
+	case ContainsNot:
+		return ContainsNoCaseNot
+	default:
+		return op
+	}
+}
+
 // String converts a filter back to its string representation.
 func (f *Filter) String(prefix string) (str string) {
 	strNegate := ""
@@ -180,20 +200,25 @@ func (f *Filter) String(prefix string) (str string) {
 
 	// trim lower case columns prefix, they are used internally only
 	colName := strings.TrimSuffix(f.column.Name, "_lc")
+	operator := f.operator
+	if colName != f.column.Name {
+		// the shadow column is compared case-sensitive with a lower case value, the original column is not
+		operator = operator.noCaseVariant()
+	}
 
 	switch f.statsType {
 	case NoStats:
 		if prefix == "" {
 			prefix = "Filter"
 		}
-		str = fmt.Sprintf("%s: %s %s%s\n", prefix, colName, f.operator.String(), strVal)
+		str = fmt.Sprintf("%s: %s %s%s\n", prefix, colName, operator.String(), strVal)
 	case StatsGroup:
 		if prefix == "" {
 			prefix = "Filter"
 		}
-		str = fmt.Sprintf("%sGroup: %s %s%s\n", prefix, colName, f.operator.String(), strVal)
+		str = fmt.Sprintf("%sGroup: %s %s%s\n", prefix, colName, operator.String(), strVal)
 	case Counter:
-		str = fmt.Sprintf("Stats: %s %s%s\n", colName, f.operator.String(), strVal)
+		str = fmt.Sprintf("Stats: %s %s%s\n", colName, operator.String(), strVal)
 	default:
 		str = fmt.Sprintf("Stats: %s %s\n", f.statsType.String(), colName)
 	}
